@@ -765,6 +765,79 @@ func (ex *extractor) decisions(f *Facts) {
 			return true
 		})
 	}
+	// unwrapping of engine-internal values: the cases of ValueOf's type switch, and what SelectExpr does with the value of
+	// a select item (omit / fuse / async slot / store) and with `*`, statement by statement
+	if fd := ex.funcs["ValueOf"]; fd != nil && fd.Body != nil {
+		ast.Inspect(fd.Body, func(n ast.Node) bool {
+			ts, ok := n.(*ast.TypeSwitchStmt)
+			if !ok {
+				return true
+			}
+			for _, st := range ts.Body.List {
+				if cc, ok := st.(*ast.CaseClause); ok {
+					label := "default"
+					if len(cc.List) > 0 {
+						var ls []string
+						for _, e := range cc.List {
+							ls = append(ls, srcText(e))
+						}
+						label = strings.Join(ls, ", ")
+					}
+					var body []string
+					for _, b := range cc.Body {
+						body = append(body, stmtText(b))
+					}
+					f.Decisions["valueOf"] = append(f.Decisions["valueOf"], "case "+label+": "+strings.Join(body, " "))
+				}
+			}
+			return false
+		})
+	}
+	if fd := ex.funcs["SelectExpr"]; fd != nil && fd.Body != nil {
+		ast.Inspect(fd.Body, func(n ast.Node) bool {
+			ts, ok := n.(*ast.TypeSwitchStmt)
+			if !ok {
+				return true
+			}
+			for _, st := range ts.Body.List {
+				cc, ok := st.(*ast.CaseClause)
+				if !ok || len(cc.List) != 1 {
+					continue
+				}
+				label := srcText(cc.List[0])
+				var walk func(list []ast.Stmt)
+				walk = func(list []ast.Stmt) {
+					for _, b := range list {
+						if blk, ok := b.(*ast.BlockStmt); ok {
+							walk(blk.List)
+							continue
+						}
+						f.Decisions["selectExpr"] = append(f.Decisions["selectExpr"], label+": "+stmtText(b))
+					}
+				}
+				walk(cc.Body)
+			}
+			return false
+		})
+	}
+	// the dialect rewrites of New: which text each rewrite reads, where its result goes, and what is parsed
+	if fd := ex.funcs["New"]; fd != nil && fd.Body != nil {
+		for _, st := range fd.Body.List {
+			mentions := false
+			ast.Inspect(st, func(n ast.Node) bool {
+				if id, ok := n.(*ast.Ident); ok {
+					switch id.Name {
+					case "DoubleQuotesToBackTick", "FixIdiomaticArray", "Parse", "postgresEscapingDialect", "idomaticArrays":
+						mentions = true
+					}
+				}
+				return true
+			})
+			if mentions {
+				f.Decisions["dialect"] = append(f.Decisions["dialect"], stmtText(st))
+			}
+		}
+	}
 	// query copies (join sides, inner arrays of a multi-dimensional FROM): which fields of Query a copy inherits
 	// and how, as sorted `field = value` lines, and how the origin takes over what the copy deferred
 	if fd := ex.funcs["CopyQuery"]; fd != nil && fd.Body != nil {
@@ -1756,7 +1829,7 @@ func main() {
 		}
 		sb.WriteString("def " + k + "Events : List Ev := [" + strings.Join(evs, ", ") + "]\n")
 	}
-	for _, k := range []string{"sortCompare", "window", "join", "stages", "vars", "copyQuery", "queryFields"} {
+	for _, k := range []string{"sortCompare", "window", "join", "stages", "vars", "copyQuery", "queryFields", "dialect", "valueOf", "selectExpr"} {
 		sb.WriteString("def decisions" + strings.ToUpper(k[:1]) + k[1:] + " : List String :=\n  " + leanStrList(f.Decisions[k]) + "\n\n")
 	}
 	for _, fn := range []string{"ComparisonExpr", "BinaryExpr", "UnaryExpr"} {
